@@ -39,3 +39,63 @@ func vfIVFStored(idx *IVFIndex, id uint32) []float32 {
 }
 
 func vfIVFDistance(idx *IVFIndex) Distance { return idx.distance }
+
+// ---- PQ ----
+
+type vfPQView struct {
+	M, Ksub, Dsub int
+	Codebooks     [][]float32          // M x (Ksub*Dsub)
+	Codes         map[uint32][]int     // id -> code (resident, incl. soft-deleted)
+	Stored        map[uint32][]float32 // id -> stored (preprocessed) vector
+}
+
+func vfPQViewOf(idx *PQIndex) vfPQView {
+	idx.mu.RLock()
+	defer idx.mu.RUnlock()
+	v := vfPQView{M: idx.M, Ksub: idx.Ksub, Dsub: idx.dsub, Codebooks: vfClone2D(idx.codebooks), Codes: map[uint32][]int{}, Stored: map[uint32][]float32{}}
+	for i, n := range idx.vectorNodes {
+		code := make([]int, len(idx.codes[i]))
+		for j, c := range idx.codes[i] {
+			code[j] = int(c)
+		}
+		v.Codes[n.ID()] = code
+		v.Stored[n.ID()] = vfCloneF32(n.Vector())
+	}
+	return v
+}
+
+// ---- IVFPQ ----
+
+type vfIVFPQView struct {
+	vfPQView
+	Centroids [][]float32
+	Lists     [][]uint32
+	ListOf    map[uint32]int
+}
+
+func vfIVFPQViewOf(idx *IVFPQIndex) vfIVFPQView {
+	idx.mu.RLock()
+	defer idx.mu.RUnlock()
+	v := vfIVFPQView{}
+	v.M, v.Ksub, v.Dsub = idx.M, idx.Ksub, idx.dsub
+	v.Codebooks = vfClone2D(idx.codebooks)
+	v.Codes, v.Stored, v.ListOf = map[uint32][]int{}, map[uint32][]float32{}, map[uint32]int{}
+	v.Centroids = vfClone2D(idx.centroids)
+	v.Lists = make([][]uint32, len(idx.lists))
+	for li, l := range idx.lists {
+		for _, cv := range l {
+			id := cv.Node.ID()
+			v.Lists[li] = append(v.Lists[li], id)
+			code := make([]int, len(cv.Code))
+			for j, c := range cv.Code {
+				code[j] = int(c)
+			}
+			v.Codes[id] = code
+			v.Stored[id] = vfCloneF32(cv.Node.Vector())
+			v.ListOf[id] = li
+		}
+	}
+	return v
+}
+
+func vfIVFPQDistance(idx *IVFPQIndex) Distance { return idx.distance }
